@@ -294,6 +294,8 @@ pub fn by_family(fam: &str, seed: u64) -> Scenario {
         "bpReset" => bp_reset(seed),
         "flowBs" => flow_bs(seed),
         "flowBc" => flow_bc(seed),
+        "capRace" => cap_race(seed),
+        "ctlB" => ctl_b(seed),
         _ => mix_a(seed, false),
     }
 }
@@ -547,6 +549,161 @@ pub fn flow_bc(seed: u64) -> Scenario {
     s.peer = steps;
     for q in 1..5 {
         s.env.push(EnvStep { at: "q".into(), n: q, op: EnvOp::Census });
+    }
+    s.drop_sr_when_done = true;
+    s
+}
+
+// ---------------------------------------------------------------------------
+// Mode Bc: competition for the connection window (stream windows are huge). Streams send / reserve
+// more than 65 535 bytes in total, so some wait; then one of them goes away (peer RST_STREAM, user reset,
+// drop, end of stream, lowered reservation). What it held must reach the others (C16 f, C06).
+pub fn cap_race(seed: u64) -> Scenario {
+    let mut rng = StdRng::seed_from_u64(seed ^ 0xCA9_0ACE);
+    let mut s = Scenario::default();
+    s.name = format!("capRace-{}", seed);
+    s.mode = "Bc".into();
+    s.sched.seed = seed;
+    s.peer_cfg.settings = vec![(4, 1 << 24), (5, pick(&mut rng, &[16384u32, 65536]))];
+    s.peer_cfg.ack_settings = true;
+    s.peer_cfg.ack_ping = true;
+    s.peer_cfg.grant = "none".into();
+    s.peer_cfg.respond = false;
+    let n = rng.gen_range(2..4);
+    let victim = rng.gen_range(0..n);
+    let how = rng.gen_range(0..5);
+    let amounts = [5000usize, 10000, 25535, 30000, 40000, 65535, 70000];
+    for i in 0..n {
+        let mut r = ReqProg::default();
+        r.tag = i + 1;
+        r.ready = true;
+        r.start_q = if i == 0 { None } else { Some(i as usize) };
+        let mut ops = vec![];
+        // phase 1 (own quiescence slot i+1): take or ask for part of the connection window
+        match rng.gen_range(0..4) {
+            0 => ops.push(SendOp::Data { n: pick(&mut rng, &amounts), eos: false }),
+            1 => ops.push(SendOp::Reserve { n: pick(&mut rng, &amounts) }),
+            2 => {
+                ops.push(SendOp::Data { n: pick(&mut rng, &amounts), eos: false });
+                ops.push(SendOp::Reserve { n: pick(&mut rng, &amounts) });
+            }
+            _ => {
+                ops.push(SendOp::Reserve { n: pick(&mut rng, &amounts) });
+                ops.push(SendOp::PollCapOnce);
+            }
+        }
+        // phase 2 (all at quiescence n+1, without the connection being polled in between): more demand
+        ops.push(SendOp::WaitQ { k: n as usize + 1 });
+        match rng.gen_range(0..3) {
+            0 => ops.push(SendOp::Data { n: pick(&mut rng, &amounts), eos: false }),
+            1 => ops.push(SendOp::Reserve { n: pick(&mut rng, &amounts) }),
+            _ => {}
+        }
+        ops.push(SendOp::PollCapOnce);
+        // phase 3: the victim leaves by itself (variants 1..4); variant 0: the peer resets it
+        ops.push(SendOp::WaitQ { k: n as usize + 2 });
+        if i == victim {
+            match how {
+                1 => ops.push(SendOp::Reset { code: 8 }),
+                2 => ops.push(SendOp::Drop),
+                3 => ops.push(SendOp::Reserve { n: 0 }),
+                4 => ops.push(SendOp::Data { n: 0, eos: true }),
+                _ => {}
+            }
+        }
+        ops.push(SendOp::PollCapOnce);
+        ops.push(SendOp::WaitQ { k: n as usize + 4 });
+        ops.push(SendOp::PollCapOnce);
+        ops.push(SendOp::WaitQ { k: n as usize + 6 });
+        r.ops = ops;
+        r.read = ReadPol { idle: true, hold_q: Some(n as usize + 6), ..Default::default() };
+        s.reqs.push(r);
+    }
+    let mut steps = vec![];
+    for _ in 0..(n + 1) {
+        steps.push(PeerStep::WaitQ);
+        steps.push(PeerStep::Auto { ack_settings: None, ack_ping: None, grant: None, respond: None });
+    }
+    steps.push(PeerStep::WaitQ);
+    if how == 0 {
+        steps.push(PeerStep::Rst { sid: 1 + 2 * victim, code: pick(&mut rng, &CODES) });
+    } else {
+        steps.push(PeerStep::Auto { ack_settings: None, ack_ping: None, grant: None, respond: None });
+    }
+    steps.push(PeerStep::WaitQ);
+    steps.push(PeerStep::Auto { ack_settings: None, ack_ping: None, grant: None, respond: None });
+    steps.push(PeerStep::WaitQ);
+    // a little more connection window at the end: whoever still waits must get it
+    steps.push(PeerStep::Wu { sid: 0, inc: pick(&mut rng, &[1000u32, 20000, 65535]) });
+    steps.push(PeerStep::WaitQ);
+    s.peer = steps;
+    s.drop_sr_when_done = true;
+    s
+}
+
+// ---------------------------------------------------------------------------
+// Mode Bc / Bs: control frames under write back-pressure (C14, C15, C18): the real endpoint is in the
+// middle of writing a large DATA frame (or a header block with CONTINUATION) when its transport blocks;
+// the scripted peer then sends bursts of SETTINGS / PING (also back to back); later writes are unblocked.
+pub fn ctl_b(seed: u64) -> Scenario {
+    let mut rng = StdRng::seed_from_u64(seed ^ 0xC71B);
+    let mut s = Scenario::default();
+    let server = rng.gen_bool(0.4);
+    s.name = format!("ctlB-{}", seed);
+    s.mode = if server { "Bs".into() } else { "Bc".into() };
+    s.sched.seed = seed;
+    let real = if server { 1 } else { 0 };
+    s.peer_cfg.settings = vec![(4, 1 << 20)];
+    s.peer_cfg.ack_settings = true;
+    s.peer_cfg.ack_ping = true;
+    s.peer_cfg.grant = "all".into();
+    s.peer_cfg.respond = true;
+    let big = pick(&mut rng, &[20000usize, 40000, 65535]);
+    let hid = if rng.gen_bool(0.3) { pick(&mut rng, &[7usize, 9]) } else { 0 };
+    let mut steps = vec![];
+    if server {
+        s.srv.push(SrvProg { ops: vec![SendOp::Response { status: 200, hid, eos: false }, SendOp::Data { n: big, eos: true }], read: ReadPol::default(), note: String::new() });
+        steps.push(PeerStep::Wu { sid: 0, inc: 1 << 20 });
+        steps.push(PeerStep::Headers { sid: 1, hid: 0, fields: vec![], eos: true, frag: 0, huff: false, status: 0, req: true, method: "GET".into(), tag: 1 });
+    } else {
+        let mut r = ReqProg::default();
+        r.tag = 1;
+        r.ready = true;
+        r.hid = hid;
+        r.ops = vec![SendOp::Data { n: big, eos: true }];
+        s.reqs.push(r);
+        steps.push(PeerStep::Wu { sid: 0, inc: 1 << 20 });
+    }
+    // the real endpoint's writes block after k bytes (somewhere inside the DATA frame / header block)
+    let k = pick(&mut rng, &[200usize, 1000, 5000, 16000, 16393, 17000, 30000]);
+    s.env.push(EnvStep { at: "step".into(), n: rng.gen_range(6..12), op: EnvOp::Budget { ep: real, n: Some(k) } });
+    // at the first quiescence (writer blocked): the burst
+    steps.push(PeerStep::WaitQ);
+    let burst = rng.gen_range(1..6);
+    for _ in 0..burst {
+        match rng.gen_range(0..6) {
+            0 => steps.push(PeerStep::Settings { vals: vec![(3, pick(&mut rng, &[1u32, 10, 100]))] }),
+            1 => steps.push(PeerStep::Settings { vals: vec![(4, pick(&mut rng, &[0u32, 65535, 1 << 20, 100000]))] }),
+            2 => steps.push(PeerStep::Settings { vals: vec![(5, pick(&mut rng, &[16384u32, 32768, 1 << 20])), (1, pick(&mut rng, &[0u32, 100, 4096]))] }),
+            3 => steps.push(PeerStep::Settings { vals: vec![] }),
+            _ => steps.push(PeerStep::Ping { ack: false, pl: rng.gen() }),
+        }
+        if rng.gen_bool(0.2) {
+            steps.push(PeerStep::WaitQ);
+        }
+    }
+    steps.push(PeerStep::WaitQ);
+    steps.push(PeerStep::Ping { ack: false, pl: rng.gen() });
+    steps.push(PeerStep::WaitQ);
+    s.peer = steps;
+    // unblock after the burst has been delivered (quiescence 3 or later), possibly in two stages
+    s.env.push(EnvStep { at: "q".into(), n: 3, op: EnvOp::Budget { ep: real, n: if rng.gen_bool(0.3) { Some(rng.gen_range(1..2000)) } else { None } } });
+    s.env.push(EnvStep { at: "q".into(), n: 4, op: EnvOp::Budget { ep: real, n: None } });
+    if rng.gen_bool(0.3) {
+        s.env.push(EnvStep { at: "q".into(), n: 2, op: EnvOp::Ping { ep: real } });
+    }
+    if rng.gen_bool(0.2) {
+        s.env.push(EnvStep { at: "q".into(), n: 2, op: EnvOp::Conn { ep: real, op: "initial_window".into(), n: pick(&mut rng, &[1000u32, 100000]) } });
     }
     s.drop_sr_when_done = true;
     s
